@@ -42,6 +42,7 @@ var transparentKnown = map[string]bool{
 	"(*Arg).isRemaining":            true,
 	"optionIniName":                 true,
 	"(*Group).groupByName":          true,
+	"(*alignmentInfo).updateLen":    true,
 }
 
 // inlineSite returns the unique static call site of a new function (nil if it
